@@ -904,6 +904,9 @@ class _Parser:
     def pause_reading(self):
         pass
 
+    def resume_reading(self):
+        pass
+
     def feed_data(self, data):
         return (), False, b""
 
